@@ -114,6 +114,21 @@ pub fn verbatim_regions(s: &str, toks: &[OTok]) -> Vec<(usize, usize)> {
     regions
 }
 
+/// formatting is still disabled at the end of the file (an `off` toggle without a later `on`)
+pub fn region_open_at_eof(s: &str, toks: &[OTok]) -> bool {
+    let mut open = false;
+    for t in toks {
+        if let RawTokenType::Comment(_) = t.kind {
+            match toggle_of(&s[t.start + t.ws_len..t.end]) {
+                Some(false) => open = true,
+                Some(true) => open = false,
+                None => {}
+            }
+        }
+    }
+    open
+}
+
 pub fn c03_idempotent(input: &str, cfg: &Cfg) -> Vec<String> {
     let o1 = fmt(input, cfg);
     let o2 = fmt(&o1, cfg);
@@ -218,6 +233,10 @@ pub fn c07_regions(input: &str, cfg: &Cfg, well_formed: bool) -> Vec<String> {
                 fails.push("c07: a pasfmt off/on region is not reproduced byte for byte".to_string());
                 break;
             }
+        }
+        // a region that runs to the end of the file is the end of the output: nothing may follow it
+        if b == input.len() && a < b && region_open_at_eof(input, &toks) && !out.ends_with(r) {
+            fails.push("c07: the output does not end with the region that runs to the end of the file".to_string());
         }
     }
     fails
